@@ -31,3 +31,12 @@ Example C20_nonvacuous :
   | None => []
   end = [TLog 11 1; TLog 11 2; TRes 2].
 Proof. vm_compute. reflexivity. Qed.
+
+(* EXACTLY ONCE, IN ORDER, NONE LOST: for every interleaving of tasks and forwarder, what has been forwarded so far
+   followed by what is still queued is exactly the sequence of logs that were emitted — no log is lost, duplicated
+   or overtaken; in particular, once the queue is empty every emitted log has been delivered exactly once *)
+Theorem C20_logs_exactly_once_in_order :
+  forall ls s out, texec tinit ls = Some (s, out) ->
+    logs_of out ++ map as_out (t_logs s) = map as_out (emitted ls).
+Proof. exact logs_exactly_once_in_order. Qed.
+Print Assumptions C20_logs_exactly_once_in_order.
